@@ -316,7 +316,7 @@ pub fn generate(ctx: &mut Ctx) {
         }
         bi += 1;
     }
-    let n = ctx.by_tier(24_000u64, 400_000u64) / ctx.nshards;
+    let n = ctx.by_tier(24_000u64, 1_200_000u64) / ctx.nshards;
     for i in 0..n {
         let mut rng = ctx.rng("text", i);
         let mut o = gen::Opts::new(rng.chance(1, 2));
